@@ -7,61 +7,61 @@ HERE = os.path.dirname(os.path.dirname(os.path.abspath(__file__)))
 
 CLAIMS = {
  'C01': dict(
-  technique='call-graph + abstract-interpretation lint: handler exhaustiveness, reader/writer attribute agreement, raise inventory, guarded partial operations, loop variants',
-  text='Decides five necessary conditions of totality over every path of the code reachable from the public entry points for all bundled renderer configurations: every instantiable token class has a render handler; every attribute a render method reads is assigned by every constructor path of every class routed to it; the reachable raise statements are exactly the audited set; every potentially raising primitive (index, unpack, next, pop, dict lookup, int()) is discharged by a recognised guard idiom or an audited entry backed by a checked invariant; every loop has a recognised progress variant. It does not decide absence of all exceptions or termination of the regex engine.',
-  note='Trusted: CPython ast as parser; the audit table in sa/audit/c01.json (one line of reason per entry, most backed by an invariant that is itself checked in the same run); sound only relative to the modelled idioms (DESIGN.md 1.5, 6).',
+  technique='abstract interpretation of the token protocol and of every render method over abstract tokens, call-graph raise inventory, automata agreement of sibling regexes, partial-operation lint that reports established failures only',
+  text='Decides necessary conditions of totality and termination for all bundled renderer configurations: every instantiable token class has a render handler; every render method, interpreted on abstract tokens of every class routed to it (children possibly empty), has no raising path; the simulated start->read->construct protocol of every token class has no raising path and every read() that returns a result has net-consumed a line (None: cursor restored), every explored iteration of a cursor loop advances the cursor; reachable raise statements are the documented refusals; List.start accepted implies ListItem.parse_marker matches (automata); partial operations whose failure is established (tuple arity, refuted backing invariant) and loops with a back-edge path that cannot change the condition are reported - sites neither discharged nor refuted are listed as undecided. Absence of all exceptions and termination of the regex engine are not decided.',
+  note='Trusted: CPython ast as parser; reviewed arguments in sa/audit/c01.json discharge sites but their absence is not an alarm (DESIGN.md 8.6).',
   ref='2/C01'),
  'C03': dict(
-  technique='set and decision-table agreement of the paragraph-interruption predicates with the CommonMark table (abstract interpretation of each predicate)',
-  text='Decides one clause named in the anchors: the set of block classes that may interrupt a paragraph and the condition under which each does equal the CommonMark 0.30 table; Paragraph.read consults all of them. The compositional parse itself is not decided.',
+  technique='decision-table agreement of the paragraph-interruption predicates with the CommonMark table; interpretation of the container and definition readers over abstract lines with a concrete cursor (line accounting)',
+  text='Decides the clauses named in the anchors: the set of block classes that may interrupt a paragraph and the condition under which each does equal the CommonMark 0.30 table; Paragraph.read consults all of them on every continuation line under both settings of the setext switch; ListItem.read treats a line as a new item only after the interruption predicates declined it; container readers hand back trailing blank lines they drop and never a line they keep (tight/loose signal); Footnote.read hands back exactly the lines its definitions did not use; the cursor protocol these rest on; quote marker stripping and list content offset (shared with C04). The compositional parse itself is not decided.',
   note='Trusted: transcription of CommonMark 0.30 4.1-4.10/5.2 in sa/spec/interrupt.py.', ref='2/C03'),
  'C04': dict(
-  technique='typestate over the global-state inventory on every path to the nested tokenize_block call',
-  text='Decides the necessary condition that a container tokenizes its content with the same parser configuration as the top level: the nested call receives the active token list itself and no parser configuration state is overridden while it runs. Marker stripping and laziness for all texts are not decided.',
+  technique='interpretation of the container readers on abstract lines: state in force at the nested tokenize_block call, provenance of buffer elements, affine marker arithmetic derived from the regex layout, line bookkeeping of the nested call',
+  text='Decides necessary conditions of "a container wraps the parse unchanged": the nested call receives the active token list and runs under unmodified parser configuration; quote buffer elements are the source line or the line minus its marker; list content offset is I+D+N for N<=4 spaces after the marker, else I+D+1, with the marker layout read off ListItem.pattern; the nested start line is the source line of the first buffer element for readers entered anywhere in their buffer; table row offsets; interruption predicates are consulted inside containers as at top level; the Document entry treats no position of the input specially. Equality of the nested parse for all texts is not decided.',
   note='One known finding (Quote.read disables setext recognition for nested content; by design upstream).', ref='2/C04'),
  'C05': dict(
-  technique='def-before-use of class-level scratch state by path enumeration of start(); who-may-touch rule on the line cursor; call-graph re-entry check',
-  text='Decides that no block reader can observe anything left behind by an earlier block: every scratch attribute read() loads is assigned on every truthy path of start(), nothing re-enters the same start() before it is consumed, readers move the cursor only through the FileWrapper API with set_pos fed by get_pos of the same activation, and the dispatch loop rescans all token types for every block. Equality of the parsed blocks as a runtime fact is not decided.',
+  technique='def-before-use of class-level scratch state by path enumeration of start(); dispatch loop and cursor protocol decided by interpretation with abstract token types; hand-off buffer discipline',
+  text='Decides that no block reader can observe anything left behind by an earlier block: every scratch attribute read() loads is assigned on every accepting path of start() (optional regex groups may be None); in the interpreted dispatch loop a successful start() is followed at once by read() of the same type, nothing called in between reaches a start(), and every block is scanned from the first token type on the line at the cursor; cursor fields are touched only by FileWrapper, set_pos only with a value from get_pos of the same activation, backstep never moves before the first line; the span-level hand-off buffer is emptied before every scan and its driver calls the producer on every path. Equality of the parsed blocks as a runtime fact is not decided.',
   note='Trusted: audited exception Footnote.read `_index -=` (sa/audit/c05.json).', ref='2/C05'),
  'C06': dict(
-  technique='abstract interpretation over finite domains (neighbour classes, lengths mod 3, affine lengths) compared with transcribed spec tables; dependency-set rule for memo keys',
-  text='Decides the table-shaped parts of the delimiter algorithm exhaustively: the four flanking predicates over all abstract neighbourhoods equal CommonMark 6.2; closed_by equals rules 9/10 over lengths mod 3 and flags and must read original lengths; the Delimiter invariant len(type)=number=end-start holds through remove(); the opener-search bound must be keyed by everything the search predicate reads; strong/emphasis span arithmetic. The stack surgery of process_emphasis, hence equality of the whole <em>/<strong> structure, is not decided.',
-  note='Two known findings (rule of three on remaining lengths; opener bound keyed by character only). Trusted: sa/spec/flanking.py.', ref='2/C06'),
+  technique='abstract interpretation over finite domains (neighbour classes, lengths mod 3, affine lengths) compared with transcribed spec tables; interpretation of process_emphasis on bounded families of delimiter stacks with symbolic positions against a transcription of the specification algorithm',
+  text='Decides the table-shaped parts of the delimiter algorithm exhaustively (the four flanking predicates over all abstract neighbourhoods equal CommonMark 6.2; closed_by equals rules 9/10 over lengths mod 3 and flags, on lengths nothing rewrites; len(type)=number=end-start through remove()) and the stack surgery for bounded families: process_emphasis, interpreted on every delimiter stack of 2-3 runs, on 4-5 both-flanking runs and on 5 single-character runs (thorough: also 4 runs of length 1-2, 5-6 both-flanking, 6 single-character; 87 740 stacks), records exactly the matches (spans, kinds) of the specification procedure. Stacks outside the families, the scanner that builds the stack and links inside emphasis are not decided.',
+  note='Both earlier findings (rule of three on remaining lengths; opener bound per character) were repaired in /repo f2abd12 and verified by the same simulation. Trusted: sa/spec/flanking.py and the transcription spec_emphasis in sa/rules/c06.py.', ref='2/C06'),
  'C07': dict(
-  technique='call-graph reachability (block phase cannot reach the inline tokenizer; only the block phase writes definitions), dominance of the first-wins guard, writer/reader agreement on the label normaliser',
-  text='Decides the structural mechanisms behind reference resolution: the inline tokenizer is unreachable from any block start/read; Document.footnotes is written only from the block phase and every store is guarded by a not-in test on the same key; store and every lookup apply the same normaliser, which case-folds and collapses whitespace; definitions produce no token; a reference without definition yields no match. Agreement of the label/destination/title scanners with the spec grammar is not decided.',
+  technique='call-graph reachability; interpretation of the definition writers over abstract definitions with an abstract definitions table; provenance counting of unescaping steps; decision table of match_link_image',
+  text='Decides the structural mechanisms behind reference resolution: the inline tokenizer is unreachable from any block start/read; Document.footnotes is written only from the block phase, only by setdefault or where the key was found absent, in source order, with key, destination and title of the same definition; Footnote.read hands its matches over in scan order; store and lookups use one normaliser that case-folds and collapses whitespace; destination and title reach Link/Image through exactly one unescaping for references and inline links alike; definitions produce no token; match_link_image yields a reference match only if the lookup succeeded, literal text only after the shortcut lookup failed, and no shortcut when a label follows. Agreement of the scanners with the spec grammar is not decided.',
   note='Trusted: over-approximate call graph (name-based fallback) - sound for unreachability.', ref='2/C07'),
  'C08': dict(
   technique='charset-taint dataflow with per-character sanitiser images + template skeleton analysis with an HTML tokenizer state machine (abstract interpretation of every render method)',
-  text='For HtmlRenderer under every option valuation decides that no document-derived character that is special in a hole\'s context (text: < > &; double-quoted attribute: additionally ") reaches the output raw, that every template is tag-balanced with void tags self-closed, that raw document text is returned only for HtmlBlock/HtmlSpan which are registered only under process_html_tokens, and that the <p>-suppression stack is restored on every normal path. Sanitiser effects are computed from their bodies. Round-trip of escaped text is not decided.',
+  text='For HtmlRenderer under every option valuation decides that no document-derived character that is special in a hole\'s context (text: < > &; double-quoted attribute: additionally ") reaches the output raw - including values that one render method stores in a renderer attribute and another reads back; every template is tag-balanced with void tags self-closed; raw document text is returned only for HtmlBlock/HtmlSpan, which are registered only under process_html_tokens, and with it off render() of such a token fails on every path; the <p>-suppression stack is restored on every normal path. Sanitiser effects are computed from their bodies. Round-trip of escaped text is not decided.',
   note='Trusted: postconditions of html.escape and urllib.parse.quote; induction over the token tree for rendered children.', ref='2/C08'),
  'C09': dict(
-  technique='reader/writer agreement on spelling attributes and def-use flow of each spelling attribute into the Markdown renderer\'s output',
-  text='Decides only the anchor "tokens retain their source spelling": every spelling attribute the Markdown renderer reads is assigned by every constructor path of each class routed to that method, and each spelling attribute flows into what the method yields; blank lines and link definitions are kept as tokens while the renderer is active. Same-meaning, idempotence and exactness of the round trip are not decided.',
-  note='Thin claim: detects only changes that drop or stop emitting a spelling attribute.', ref='2/C09'),
+  technique="reader/writer agreement on spelling attributes, label flow of each spelling attribute into the Markdown renderer's output with a trail of lossy operations, interpretation of the line assembly",
+  text='Decides the anchor "tokens retain their source spelling": every spelling attribute the Markdown renderer reads is assigned on every constructor path (and captured on every accepting path of start()), is read by its render method (helpers included) and reaches the output under every option valuation without a lossy step; without a limit, fragment text reaches the output lines unstripped; blank lines and link definitions are kept as tokens, the definition block keeps every definition in order, duplicates of a label included. Same-meaning, idempotence and exactness of the round trip are not decided.',
+  note='Thin claim: detects changes that drop, stop emitting or rewrite a retained spelling.', ref='2/C09'),
  'C10': dict(
-  technique='def-use and affine-length analysis of the wrap budget; stated-belief (sentinel) rule',
-  text='Decides the arithmetic clauses of reflow: blocks that must not be re-broken never pass the limit on; each container gives its children limit minus the length of the prefix it prepends (for both prefixes); a line is extended only under a length test against the limit; a budget encoded as None-for-absent is never tested by truthiness; and (interpreting make_words + fragments_to_lines over an abstract word sequence with an unknown limit) a hard line break always separates the words around it and no word is dropped. Meaning preservation and idempotence are not decided.',
+  technique='interpretation of every limit-taking Markdown method with the limit symbolic and recorder stubs for the line producers (affine budgets and prefix lengths); interpretation of the wrapping loop on abstract words with an abstract limit',
+  text='Decides the arithmetic clauses of reflow: blocks that must not be re-broken never pass the limit on; each method hands its children the limit minus the length of every prefix it puts in front of their lines (or the limit itself), never the renderer-wide setting, None stays None, and the limit is never used to cut text; no value computed from the limit is tested by truthiness; in the wrapping loop an output line with more than one word was found to fit on that path and words are emitted once in order; a hard line break always separates the words around it. Meaning preservation and idempotence are not decided.',
   note='Trusted: len() algebra of string concatenation and repetition.', ref='2/C10'),
  'C11': dict(
   technique='effect inventory of all call-time writes to process-global state + typestate disciplines (restore on all paths incl. exceptional edges, rewrite at entry, def-before-use, reset-before-fill, who-may-write/call) + abstract interpretation of Renderer();__exit__',
-  text='Decides that every piece of process-global mutable state (12 locations, enumerated from the source on every run) follows a discipline under which it cannot carry information from one use of the library to the next, on normal and exceptional paths; any newly written global location is a violation. Equality of outputs across histories as a runtime fact is not decided.',
+  text='Decides that every piece of process-global mutable state (enumerated from the source on every run; memoised functions that depend on call-time state included) follows a discipline under which it cannot carry information from one use of the library to the next, on normal and exceptional paths: restore in finally, rewrite at entry, def-before-use, reset-before-fill with the driver calling the producer on every path, registry written only while a renderer is constructed and restored on every path of __exit__; any newly written global location is a violation. Equality of outputs across histories as a runtime fact is not decided.',
   note='Trusted: the frozen classification table (confirmed by reading); statements without calls/subscripts/arithmetic cannot raise.', ref='2/C11'),
  'C12': dict(
   technique='ownership (who-may-write) rule for parent links, child-kind inference from abstract constructor facts, regex quantifier bounds, reader/writer agreement for repr/AST attributes',
-  text='Decides shape invariants that follow from what constructors assign: parent links are stamped only by the children setter and children are never mutated in place; each class\'s children kind equals the documented kind; heading level is bounded 1-6 by the regex group that produces it and list start derives from the first item\'s marker; every repr/AST attribute is assigned on all constructor paths; traverse yields the stored parent and depth. Finiteness and exact-once traversal as runtime facts are not decided.',
+  text="Decides shape invariants that follow from what constructors assign: parent links are stamped only by the children setter and a token's children are never mutated in place (receiver kinds resolved through callers); no token object is listed twice; each class's children kind equals the documented kind; heading level is bounded 1-6 by the regex group that produces it and list start derives from the first item's marker; every repr/AST attribute is assigned on all constructor paths; get_ast copies values and recurses over header and children, empty containers included; traverse yields each node once with its parent and depth, value-equal leaves included. Finiteness as a runtime fact is not decided.",
   note='Trusted: frozen child-kind table transcribed from the class docstrings.', ref='2/C12'),
  'C13': dict(
   technique='symbolic-cursor typestate on enumerated paths of the readers (line-origin consistency of every start_line hand-off), affine offsets',
-  text='Decides that the line number attached to a block is, on every path, the number of the line at the cursor when the block starts: captured between start() and read() in the dispatch loop, and every nested tokenize_block receives as start_line the source line of the first element of the buffer it is given; table row and cell offsets agree with their slice offsets. That readers consume exactly the lines of their block is not decided.',
-  note='Trusted: FileWrapper.line_number = start_line + _index (checked).', ref='2/C13'),
+  text='Decides that the line number attached to a block is, on every path, the number of the line at the cursor when the block starts: captured between start() and read() in the dispatch loop; every nested tokenize_block receives as start_line the source line of the first element of its buffer, for readers entered anywhere in their buffer; table row and cell offsets; the cursor protocol (line_number after each line, end of input); Document hands the tokenizer its input lines one for one. That readers consume exactly the lines of their block is not decided.',
+  note='Trusted: semantics of str.splitlines(keepends=True).', ref='2/C13'),
  'C14': dict(
   technique='regex literal -> NFA -> product-automaton language inclusion against transcribed CommonMark block-start languages (shortest witness), plus path enumeration of start()',
-  text='Decides the over-acceptance clause for prose: for every regex-based block start the prefix-match language over all well-formed lines is included in the CommonMark 0.30 language (Heading, ThematicBreak, CodeFence incl. its backtick filter, list markers, setext underline); starts use anchored .match and return truthy only when the pattern matched; the hand-written Quote/HtmlBlock starts accept at most three leading spaces; a list marker interrupts a paragraph only as the spec says; flanking rows for intraword/isolated delimiters; gap text reaches the fallback token through html.unescape only. Inertness of inline punctuation in general is not decided.',
+  text='Decides the over-acceptance clauses for prose: for every regex-based block start the prefix-match language over all well-formed lines is included in the CommonMark 0.30 language (Heading, ThematicBreak, CodeFence incl. its backtick filter, list markers, setext underline); a table needs a second line that is a delimiter row as a whole (GFM grammar); the strikethrough pattern matches only ~~...~~; starts use anchored .match and return truthy only when the pattern matched; Quote/HtmlBlock starts accept at most three leading spaces; a list marker interrupts a paragraph only as the spec says; flanking rows for intraword/isolated delimiters; gap text reaches the fallback token through html.unescape only; a reader that gives up restores the cursor; no markup of earlier text is attributed to later text. Inertness of inline punctuation in general is not decided.',
   note='Trusted: sa/spec/blockstart.py; alphabet abstraction (printable ASCII, tab, newline, one non-ASCII letter).', ref='2/C14'),
  'C15': dict(
   technique='string-suffix abstract domain + provenance (def-use) from each entry point to the single line normaliser',
-  text='Decides that all ways of supplying text funnel into one normaliser and nothing else touches the text on the way: Document.__init__ completes a missing newline and is the identity on lines that have one, for str via splitlines(keepends=True); markdown(), cli.convert, convert_file and __main__ pass their input through unchanged, open files as UTF-8 text and write the encoded result. Behaviour of splitlines on exotic separators is outside the property.',
+  text='Decides that all ways of supplying text funnel into one normaliser and nothing else touches the text on the way: Document.__init__ completes a missing newline and is the identity on lines that have one, for str via splitlines(keepends=True); markdown() builds Document(input) and returns render(document) on every path whatever the input; cli.convert, convert_file and __main__ pass their input through unchanged, open files as UTF-8 text and write the UTF-8 encoded result. Behaviour of splitlines on exotic separators is outside the property.',
   note='Trusted: semantics of str.splitlines(keepends=True) and str.endswith.', ref='2/C15'),
  'C16': dict(
   technique='order-domain abstract interpretation: relation/eval_tokens/eval_new_child/__lt__/make_tokens interpreted over every total preorder of the symbolic offsets and precedence orders (exhaustive finite tables, sibling cross-check)',
@@ -69,15 +69,15 @@ CLAIMS = {
   note='One known finding (match after the parse group is ignored regardless of precedence).', ref='2/C16'),
  'C17': dict(
   technique='charset-taint dataflow with per-character sanitiser images + template skeleton analysis with a TeX lexer (abstract interpretation of every render method)',
-  text='For LaTeXRenderer decides that no LaTeX-special character from the document reaches a text, option, path or URL hole unescaped (the image of each special under the sanitiser chain must lex as a control sequence), that \\verb content is closed by a delimiter the path condition proves absent, and that braces and environments balance in every template. Whether the document compiles, and verbatim bodies, are not decided.',
+  text='For LaTeXRenderer decides that no LaTeX-special character from the document reaches a text, option, path or URL hole unescaped (the image of each special under the sanitiser chain must lex as a control sequence), that \\verb content is closed by a delimiter the path condition proves absent, that what the Math pattern passes through is a dollar-delimited span, that braces and environments balance in every template, and that a renderer attribute switched inside a method is restored on every exit. Whether the document compiles, and verbatim bodies, are not decided.',
   note='Two known findings (image path, listings language). Trusted: urllib.parse.quote postcondition.', ref='2/C17'),
  'C18': dict(
   technique='class-hierarchy analysis: static C3 MRO resolution of every HtmlRenderer name in each subclass, override-set and forwarding analysis, evaluated constructor state, automata check of extension-token side conditions',
   text='Decides that outside their extension the four contrib classes are HtmlRenderer: every render-map key and helper resolves to HtmlRenderer\'s own definition except the allowed extension overrides; those overrides return the super() result unmodified (plus a constant suffix for MathJax); constructors forward options and leave every attribute HtmlRenderer reads as HtmlRenderer sets it; tokens they add cannot match a document that meets the side condition (language inclusion). Pygments\' own output on code blocks is excluded by the property.',
   note='Trusted: Python MRO semantics as modelled.', ref='2/C18'),
  'C19': dict(
-  technique='boolean-atom truth table of the collection predicate + def-use of the collected tuple',
-  text='Decides the collection predicate and order: the condition guarding the append in TocRenderer.render_heading equals not(omit_title and level==1) and level<=depth and no filter matches over all valuations; headings are appended once in render order as (level, text stripped of tags) and consumed with the same arity; indentation is 4*(level-1-[omit_title]). Nesting of the rebuilt list is not decided.',
+  technique='boolean-atom truth table of the collection predicate with an abstract list of earlier entries, def-use of the collected tuple, dispatch of every heading class to the collecting method',
+  text='Decides the collection predicate, order and wiring: the condition guarding the append in render_heading equals not(omit_title and level==1) and level<=depth and no filter matches over all valuations and independently of what was collected before; every heading token class is dispatched to the collecting method in every TocRenderer configuration; headings are appended once in render order as (level, text stripped of tags) and consumed with the same arity; indentation is 4*(level-1-[omit_title]). Nesting of the rebuilt list is not decided.',
   note='Thin claim.', ref='2/C19'),
 }
 
